@@ -180,4 +180,55 @@ theorem setnx_free {s : St} {k : Slot} (he : s.cache k = none) (t : Nat) :
   unfold setnx
   simp [he, upd]
 
+/-- a Take never turns an entry into the marker when the entry is parsable (it is served) or when the DEL of
+the unparsable entry failed (the slot stays occupied, so `SET NX` does nothing).  With a plain `SET` in place
+of `SET NX` the second case would be false. -/
+theorem takeP_marker_never_replaces (c : Cfg) (s : St) (pk j : Nat) (m : List Bool) (dbf : Bool) (k : Slot) (e : Entry)
+    (he : s.cache k = some e) (hrow : e.val ≠ .ph) (hkeep : parses k.2 e.val = true ∨ failAt m 1 = true) :
+    ∀ e', (takeP c s pk j m dbf).1.cache k = some e' → e'.val ≠ .ph := by
+  intro e' h
+  rcases takeP_writes c s pk j m dbf k with h1 | h1 | ⟨hk, h1 | ⟨r, hr, h1⟩⟩
+  · rw [h1, he] at h; cases h; exact hrow
+  · rw [h1] at h; cases h
+  · -- the marker was written under this key: impossible, the slot was occupied
+    exfalso
+    subst hk
+    unfold Cfg.slot at he h1 hkeep
+    simp only [] at hkeep
+    by_cases h0 : failAt m 0 = true
+    · simp [takeP, getCache, h0, he] at h1
+      exact hrow (by rw [h1])
+    · by_cases hp : parses (.p pk) e.val = true
+      · simp [takeP, getCache, h0, he, hrow, hp] at h1
+        exact hrow (by rw [h1])
+      · have h11 : failAt m 1 = true := by
+          rcases hkeep with h | h
+          · exact absurd h hp
+          · exact h
+        have hg : getCache s (c.place (.p pk)) (.p pk) m
+            = (s, .miss, [⟨.get, c.place (.p pk), [.p pk], false⟩, ⟨.del, c.place (.p pk), [.p pk], true⟩]) := by
+          simp [getCache, h0, he, hrow, hp, h11]
+        unfold takeP at h1
+        rw [hg] at h1
+        simp only [] at h1
+        split at h1
+        · simp [he] at h1; exact hrow (by rw [h1])
+        · split at h1
+          · rw [setnx_occupied (by unfold Cfg.slot; exact he)] at h1
+            simp [he] at h1; exact hrow (by rw [h1])
+          · rename_i r hr
+            simp [setex, Cfg.slot] at h1
+            split at h1
+            · simp [he] at h1; exact hrow (by rw [h1])
+            · simp [upd] at h1
+              unfold dbRow at hr
+              split at hr
+              · cases hr; exact absurd h1.1 (by simp)
+              · cases hr
+  · rw [h1] at h; cases h
+    unfold dbRow at hr
+    split at hr
+    · cases hr; simp
+    · cases hr
+
 end GoZero.C06
